@@ -40,4 +40,128 @@ def exitStatus : Tool → CliOutcome → Nat
   -- everything else: any failure is 1 (match-products lets exceptions escape: the interpreter exits 1)
   | _, _ => 1
 
+
+/-! ## The front ends' own argument checks (`main()` after `parse_args`)
+
+What `argparse` left in the namespace is abstracted to exactly what `main()` looks
+at; `argparseOk = false` stands for a command line `argparse` itself rejected
+(missing required option, unknown option, bad type): status 2. -/
+
+/-- Python truthiness of an optional string argument: absent and `""` are false. -/
+def truthyStr : Option Str → Bool
+  | some (_ :: _) => true
+  | _ => false
+
+/-- `--gpg [KEYID]` of in-toto-run / in-toto-record: absent (`None`), the bare
+flag (`True`), or a key id. -/
+inductive GpgArg where
+  | absent
+  | flag
+  | value (s : Str)
+  deriving DecidableEq, Repr
+
+def GpgArg.truthy : GpgArg → Bool
+  | .flag => true
+  | .value (_ :: _) => true
+  | _ => false
+
+/-- The three ways to name the signing key. -/
+structure KeyArgs where
+  key : Option Str            -- --key (deprecated)
+  gpg : GpgArg                -- --gpg [KEYID]
+  signingKey : Option Str     -- --signing-key
+  deriving Repr
+
+/-- `sum([bool(args.key), bool(args.gpg), bool(args.signing_key)]) != 1` is a usage error. -/
+def KeyArgs.exactlyOne (a : KeyArgs) : Bool :=
+  (truthyStr a.key).toNat + a.gpg.truthy.toNat + (truthyStr a.signingKey).toNat == 1
+
+/-- Whether the library call that follows receives anything to sign with
+(`signing_key` / `gpg_keyid` / `gpg_use_default` / `signer`): without it
+`in_toto_run` writes no link file. -/
+def KeyArgs.signerSupplied (a : KeyArgs) : Bool :=
+  truthyStr a.key || a.gpg.truthy || truthyStr a.signingKey
+
+structure RunArgs where
+  argparseOk : Bool
+  keys : KeyArgs
+  noCommand : Bool            -- -x / --no-command
+  linkCmd : List Str          -- what follows `--`
+  deriving Repr
+
+/-- in-toto-run proceeds to the library call. -/
+def RunArgs.usageOk (a : RunArgs) : Bool :=
+  a.argparseOk && a.keys.exactlyOne && (a.noCommand || !a.linkCmd.isEmpty)
+
+structure RecordArgs where
+  argparseOk : Bool           -- includes the sub-command being `start` or `stop`
+  keys : KeyArgs
+  deriving Repr
+
+def RecordArgs.usageOk (a : RecordArgs) : Bool := a.argparseOk && a.keys.exactlyOne
+
+/-- in-toto-verify: the three key options are lists (`nargs="+"`) or absent. -/
+structure VerifyArgs where
+  argparseOk : Bool
+  layoutKeys : Option (List Str)
+  gpg : Option (List Str)
+  verificationKeys : Option (List Str)
+  deriving Repr
+
+def truthyList : Option (List Str) → Bool
+  | some (_ :: _) => true
+  | _ => false
+
+def VerifyArgs.usageOk (a : VerifyArgs) : Bool :=
+  a.argparseOk && (truthyList a.layoutKeys || truthyList a.gpg || truthyList a.verificationKeys)
+
+/-- in-toto-sign. `key` is `nargs="+"`, `gpg` is `nargs="*"` (so `some []` = the bare flag). -/
+structure SignArgs where
+  argparseOk : Bool
+  verify : Bool
+  append : Bool
+  output : Option Str
+  key : Option (List Str)
+  gpg : Option (List Str)
+  deriving Repr
+
+/-- The checks before the file is loaded. -/
+def SignArgs.usageOkBeforeLoad (a : SignArgs) : Bool :=
+  a.argparseOk && !(a.verify && (a.append || truthyStr a.output)) && (a.key.isNone != a.gpg.isNone) &&
+  !(a.verify && a.gpg == some [])
+
+def moreThanOne : Option (List Str) → Bool
+  | some (_ :: _ :: _) => true
+  | _ => false
+
+/-- The checks after the file is loaded (they apply to link metadata only). -/
+def SignArgs.usageOkAfterLoad (a : SignArgs) (isLink : Bool) : Bool :=
+  !isLink || (!(moreThanOne a.key || moreThanOne a.gpg) && !a.append)
+
+/-- What the file given to in-toto-sign turned out to be. -/
+inductive SignFile where
+  | unloadable
+  | link
+  | layout
+  deriving DecidableEq, Repr
+
+/-- The outcome class of in-toto-sign given what the signing / verifying itself
+would do (`work`) once all checks have passed. -/
+def signOutcome (a : SignArgs) (f : SignFile) (work : CliOutcome) : CliOutcome :=
+  if !a.usageOkBeforeLoad then .usageError
+  else match f with
+    | .unloadable => .loadFailure
+    | .link => if a.usageOkAfterLoad true then work else .usageError
+    | .layout => work
+
+/-- Outcome classes of the other front ends: a usage error unless the checks
+pass, then whatever the library call does. -/
+def frontOutcome (usageOk : Bool) (work : CliOutcome) : CliOutcome := if usageOk then work else .usageError
+
+def runStatus (a : RunArgs) (work : CliOutcome) : Nat := exitStatus .run (frontOutcome a.usageOk work)
+def recordStatus (t : Tool) (a : RecordArgs) (work : CliOutcome) : Nat := exitStatus t (frontOutcome a.usageOk work)
+def verifyStatus (a : VerifyArgs) (work : CliOutcome) : Nat := exitStatus .verify (frontOutcome a.usageOk work)
+def signStatus (a : SignArgs) (f : SignFile) (work : CliOutcome) : Nat :=
+  exitStatus (if a.verify then .signVerify else .sign) (signOutcome a f work)
+
 end InToto
